@@ -26,7 +26,7 @@ pub fn stub_lsx_inv(block: &mut Block, key: &Block) {
 
 // ---------------------------------------------------------------------------------------------------------- leaves
 
-//@ harness name=kuz_compact_leaf_consts prop=C07,C20 tier=quick bits=16 est=60 desc="L: P[x] == pi(x), P_INV[x] == pi^-1(x) for all octets x; KEYGEN[i] == C_{i+1} = L(Vec128(i+1)) for symbolic i in 0..32"
+//@ harness name=kuz_compact_leaf_consts prop=C07,C20 tier=thorough bits=16 est=60 desc="L: P[x] == pi(x), P_INV[x] == pi^-1(x) for all octets x; KEYGEN[i] == C_{i+1} = L(Vec128(i+1)) for symbolic i in 0..32"
 verif_harness! {
     name: kuz_compact_leaf_consts,
     bytes: 2,
@@ -50,7 +50,7 @@ fn logical(m: &[u8; 16], s: usize) -> [u8; 16] {
     a
 }
 
-//@ harness name=kuz_compact_leaf_lsx prop=C07,C20 tier=quick bits=256 est=300 desc="L (proof script): lsx(b, k) == oracle L(S(b ^ k)) for all 2^256 (b, k): X and S directly, then each of the sixteen l_step(., i) against one R of the oracle under the rotating-index correspondence, finally the leaf itself against the replayed value"
+//@ harness name=kuz_compact_leaf_lsx prop=C07,C20 tier=thorough bits=256 est=300 cap=7200 desc="L (proof script): lsx(b, k) == oracle L(S(b ^ k)) for all 2^256 (b, k): X and S directly, then each of the sixteen l_step(., i) against one R of the oracle under the rotating-index correspondence, finally the leaf itself against the replayed value"
 verif_harness! {
     name: kuz_compact_leaf_lsx,
     bytes: 32,
@@ -83,7 +83,7 @@ verif_harness! {
     }
 }
 
-//@ harness name=kuz_compact_leaf_lsx_inv prop=C07,C20 tier=quick bits=256 est=300 desc="L (proof script): lsx_inv(b, k) == oracle S^-1(L^-1(b ^ k)) for all 2^256 (b, k): each l_step(., 15 - i) against one R^-1 of the oracle, then S^-1 through P_INV, finally the leaf itself"
+//@ harness name=kuz_compact_leaf_lsx_inv prop=C07,C20 tier=thorough bits=256 est=300 cap=7200 desc="L (proof script): lsx_inv(b, k) == oracle S^-1(L^-1(b ^ k)) for all 2^256 (b, k): each l_step(., 15 - i) against one R^-1 of the oracle, then S^-1 through P_INV, finally the leaf itself"
 verif_harness! {
     name: kuz_compact_leaf_lsx_inv,
     bytes: 32,
@@ -119,7 +119,7 @@ verif_harness! {
 
 // ---------------------------------------------------------------------------------------------------------- wiring: encryption
 
-//@ harness name=kuz_compact_keys prop=C07,C20 tier=quick bits=256 stub=1 est=120 desc="W: round keys of KuznyechikEnc::new(key) (compact_soft expand) == oracle K1..K10 (Feistel key schedule with C_1..C_32), all 2^256 keys"
+//@ harness name=kuz_compact_keys prop=C07,C20 tier=thorough bits=256 stub=1 est=120 mem=30 cap=3600 desc="W: round keys of KuznyechikEnc::new(key) (compact_soft expand) == oracle K1..K10 (Feistel key schedule with C_1..C_32), all 2^256 keys"
 verif_harness! {
     name: kuz_compact_keys,
     bytes: 32,
@@ -127,7 +127,7 @@ verif_harness! {
     stubs: [(crate::compact_soft::backends::lsx, stub_lsx), (crate::compact_soft::backends::lsx_inv, stub_lsx_inv)],
     prop: |inp| { k::w_keys(inp) }
 }
-//@ harness name=kuz_compact_enc_key prop=C07,C03,C12,C20 tier=quick bits=384 stub=1 est=200 desc="W: KuznyechikEnc::new(key).encrypt_block(b) == oracle E(key schedule(key), b), all keys, all blocks"
+//@ harness name=kuz_compact_enc_key prop=C07,C03,C12,C20 tier=thorough bits=384 stub=1 est=200 mem=30 cap=3600 desc="W: KuznyechikEnc::new(key).encrypt_block(b) == oracle E(key schedule(key), b), all keys, all blocks"
 verif_harness! {
     name: kuz_compact_enc_key,
     bytes: 48,
@@ -135,7 +135,7 @@ verif_harness! {
     stubs: [(crate::compact_soft::backends::lsx, stub_lsx), (crate::compact_soft::backends::lsx_inv, stub_lsx_inv)],
     prop: |inp| { k::w_enc_key(inp, 0) }
 }
-//@ harness name=kuz_compact_enc_key_both prop=C07,C03,C12,C20 tier=quick bits=384 stub=1 est=200 desc="W: Kuznyechik::new(key).encrypt_block(b) == oracle E(key schedule(key), b), all keys, all blocks"
+//@ harness name=kuz_compact_enc_key_both prop=C07,C03,C12,C20 tier=thorough bits=384 stub=1 est=200 mem=30 cap=3600 desc="W: Kuznyechik::new(key).encrypt_block(b) == oracle E(key schedule(key), b), all keys, all blocks"
 verif_harness! {
     name: kuz_compact_enc_key_both,
     bytes: 48,
@@ -143,7 +143,7 @@ verif_harness! {
     stubs: [(crate::compact_soft::backends::lsx, stub_lsx), (crate::compact_soft::backends::lsx_inv, stub_lsx_inv)],
     prop: |inp| { k::w_enc_key(inp, 1) }
 }
-//@ harness name=kuz_compact_enc_rk prop=C07,C03,C12,C20 tier=quick bits=1408 stub=1 est=60 desc="W: KuznyechikEnc over arbitrary round keys: encrypt_block == oracle E (9 LSX rounds + X), all round keys, all blocks"
+//@ harness name=kuz_compact_enc_rk prop=C07,C03,C12,C20 tier=thorough bits=1408 stub=1 est=60 desc="W: KuznyechikEnc over arbitrary round keys: encrypt_block == oracle E (9 LSX rounds + X), all round keys, all blocks"
 verif_harness! {
     name: kuz_compact_enc_rk,
     bytes: 160 + 16,
@@ -151,7 +151,7 @@ verif_harness! {
     stubs: [(crate::compact_soft::backends::lsx, stub_lsx), (crate::compact_soft::backends::lsx_inv, stub_lsx_inv)],
     prop: |inp| { k::w_enc_rk(inp, Route::Enc) }
 }
-//@ harness name=kuz_compact_enc_rk_clone prop=C12,C20 tier=quick bits=1408 stub=1 est=60 desc="W: clone of a KuznyechikEnc: encrypt_block == oracle E, all round keys, all blocks"
+//@ harness name=kuz_compact_enc_rk_clone prop=C12,C20 tier=thorough bits=1408 stub=1 est=60 desc="W: clone of a KuznyechikEnc: encrypt_block == oracle E, all round keys, all blocks"
 verif_harness! {
     name: kuz_compact_enc_rk_clone,
     bytes: 160 + 16,
@@ -159,7 +159,7 @@ verif_harness! {
     stubs: [(crate::compact_soft::backends::lsx, stub_lsx), (crate::compact_soft::backends::lsx_inv, stub_lsx_inv)],
     prop: |inp| { k::w_enc_rk(inp, Route::EncClone) }
 }
-//@ harness name=kuz_compact_enc_rk_val prop=C12,C03,C20 tier=quick bits=1408 stub=1 est=60 desc="W: Kuznyechik::from(enc) (by value): encrypt_block == oracle E, all round keys, all blocks"
+//@ harness name=kuz_compact_enc_rk_val prop=C12,C03,C20 tier=thorough bits=1408 stub=1 est=60 desc="W: Kuznyechik::from(enc) (by value): encrypt_block == oracle E, all round keys, all blocks"
 verif_harness! {
     name: kuz_compact_enc_rk_val,
     bytes: 160 + 16,
@@ -167,7 +167,7 @@ verif_harness! {
     stubs: [(crate::compact_soft::backends::lsx, stub_lsx), (crate::compact_soft::backends::lsx_inv, stub_lsx_inv)],
     prop: |inp| { k::w_enc_rk(inp, Route::Val) }
 }
-//@ harness name=kuz_compact_enc_rk_ref prop=C12,C03,C20 tier=quick bits=1408 stub=1 est=60 desc="W: Kuznyechik::from(&enc) (by reference): encrypt_block == oracle E, all round keys, all blocks"
+//@ harness name=kuz_compact_enc_rk_ref prop=C12,C03,C20 tier=thorough bits=1408 stub=1 est=60 desc="W: Kuznyechik::from(&enc) (by reference): encrypt_block == oracle E, all round keys, all blocks"
 verif_harness! {
     name: kuz_compact_enc_rk_ref,
     bytes: 160 + 16,
@@ -175,7 +175,7 @@ verif_harness! {
     stubs: [(crate::compact_soft::backends::lsx, stub_lsx), (crate::compact_soft::backends::lsx_inv, stub_lsx_inv)],
     prop: |inp| { k::w_enc_rk(inp, Route::Ref) }
 }
-//@ harness name=kuz_compact_enc_rk_valclone prop=C12,C20 tier=quick bits=1408 stub=1 est=60 desc="W: Kuznyechik::from(enc).clone(): encrypt_block == oracle E, all round keys, all blocks"
+//@ harness name=kuz_compact_enc_rk_valclone prop=C12,C20 tier=thorough bits=1408 stub=1 est=60 desc="W: Kuznyechik::from(enc).clone(): encrypt_block == oracle E, all round keys, all blocks"
 verif_harness! {
     name: kuz_compact_enc_rk_valclone,
     bytes: 160 + 16,
@@ -183,7 +183,7 @@ verif_harness! {
     stubs: [(crate::compact_soft::backends::lsx, stub_lsx), (crate::compact_soft::backends::lsx_inv, stub_lsx_inv)],
     prop: |inp| { k::w_enc_rk(inp, Route::ValClone) }
 }
-//@ harness name=kuz_compact_enc_rk_refclone prop=C12,C20 tier=quick bits=1408 stub=1 est=60 desc="W: Kuznyechik::from(&enc).clone(): encrypt_block == oracle E, all round keys, all blocks"
+//@ harness name=kuz_compact_enc_rk_refclone prop=C12,C20 tier=thorough bits=1408 stub=1 est=60 desc="W: Kuznyechik::from(&enc).clone(): encrypt_block == oracle E, all round keys, all blocks"
 verif_harness! {
     name: kuz_compact_enc_rk_refclone,
     bytes: 160 + 16,
@@ -194,7 +194,7 @@ verif_harness! {
 
 // ---------------------------------------------------------------------------------------------------------- wiring: decryption
 
-//@ harness name=kuz_compact_dec_rk_val prop=C07,C03,C12,C20 tier=quick bits=1408 stub=1 est=200 desc="W: KuznyechikDec::from(enc) (by value) over arbitrary encryption round keys: decrypt_block == oracle D = X[K1] S^-1 L^-1 X[K2] ... S^-1 L^-1 X[K10], all round keys, all blocks"
+//@ harness name=kuz_compact_dec_rk_val prop=C07,C03,C12,C20 tier=thorough bits=1408 stub=1 est=200 desc="W: KuznyechikDec::from(enc) (by value) over arbitrary encryption round keys: decrypt_block == oracle D = X[K1] S^-1 L^-1 X[K2] ... S^-1 L^-1 X[K10], all round keys, all blocks"
 verif_harness! {
     name: kuz_compact_dec_rk_val,
     bytes: 160 + 16,
@@ -202,7 +202,7 @@ verif_harness! {
     stubs: [(crate::compact_soft::backends::lsx, stub_lsx), (crate::compact_soft::backends::lsx_inv, stub_lsx_inv)],
     prop: |inp| { k::w_dec_rk(inp, Route::Val, false, false) }
 }
-//@ harness name=kuz_compact_dec_rk_ref prop=C07,C03,C12,C20 tier=quick bits=1408 stub=1 est=200 desc="W: KuznyechikDec::from(&enc) (by reference): decrypt_block == oracle D, all round keys, all blocks"
+//@ harness name=kuz_compact_dec_rk_ref prop=C07,C03,C12,C20 tier=thorough bits=1408 stub=1 est=200 desc="W: KuznyechikDec::from(&enc) (by reference): decrypt_block == oracle D, all round keys, all blocks"
 verif_harness! {
     name: kuz_compact_dec_rk_ref,
     bytes: 160 + 16,
@@ -210,7 +210,7 @@ verif_harness! {
     stubs: [(crate::compact_soft::backends::lsx, stub_lsx), (crate::compact_soft::backends::lsx_inv, stub_lsx_inv)],
     prop: |inp| { k::w_dec_rk(inp, Route::Ref, false, false) }
 }
-//@ harness name=kuz_compact_dec_rk_valclone prop=C12,C20 tier=quick bits=1408 stub=1 est=200 desc="W: KuznyechikDec::from(enc).clone(): decrypt_block == oracle D, all round keys, all blocks"
+//@ harness name=kuz_compact_dec_rk_valclone prop=C12,C20 tier=thorough bits=1408 stub=1 est=200 desc="W: KuznyechikDec::from(enc).clone(): decrypt_block == oracle D, all round keys, all blocks"
 verif_harness! {
     name: kuz_compact_dec_rk_valclone,
     bytes: 160 + 16,
@@ -218,7 +218,7 @@ verif_harness! {
     stubs: [(crate::compact_soft::backends::lsx, stub_lsx), (crate::compact_soft::backends::lsx_inv, stub_lsx_inv)],
     prop: |inp| { k::w_dec_rk(inp, Route::ValClone, false, false) }
 }
-//@ harness name=kuz_compact_dec_rk_refclone prop=C12,C20 tier=quick bits=1408 stub=1 est=200 desc="W: KuznyechikDec::from(&enc).clone(): decrypt_block == oracle D, all round keys, all blocks"
+//@ harness name=kuz_compact_dec_rk_refclone prop=C12,C20 tier=thorough bits=1408 stub=1 est=200 desc="W: KuznyechikDec::from(&enc).clone(): decrypt_block == oracle D, all round keys, all blocks"
 verif_harness! {
     name: kuz_compact_dec_rk_refclone,
     bytes: 160 + 16,
@@ -226,7 +226,7 @@ verif_harness! {
     stubs: [(crate::compact_soft::backends::lsx, stub_lsx), (crate::compact_soft::backends::lsx_inv, stub_lsx_inv)],
     prop: |inp| { k::w_dec_rk(inp, Route::RefClone, false, false) }
 }
-//@ harness name=kuz_compact_both_dec_rk_val prop=C07,C03,C12,C20 tier=quick bits=1408 stub=1 est=200 desc="W: Kuznyechik::from(enc) (by value): decrypt_block == oracle D, all round keys, all blocks"
+//@ harness name=kuz_compact_both_dec_rk_val prop=C07,C03,C12,C20 tier=thorough bits=1408 stub=1 est=200 desc="W: Kuznyechik::from(enc) (by value): decrypt_block == oracle D, all round keys, all blocks"
 verif_harness! {
     name: kuz_compact_both_dec_rk_val,
     bytes: 160 + 16,
@@ -234,7 +234,7 @@ verif_harness! {
     stubs: [(crate::compact_soft::backends::lsx, stub_lsx), (crate::compact_soft::backends::lsx_inv, stub_lsx_inv)],
     prop: |inp| { k::w_dec_rk(inp, Route::Val, true, false) }
 }
-//@ harness name=kuz_compact_both_dec_rk_ref prop=C07,C03,C12,C20 tier=quick bits=1408 stub=1 est=200 desc="W: Kuznyechik::from(&enc) (by reference): decrypt_block == oracle D, all round keys, all blocks"
+//@ harness name=kuz_compact_both_dec_rk_ref prop=C07,C03,C12,C20 tier=thorough bits=1408 stub=1 est=200 desc="W: Kuznyechik::from(&enc) (by reference): decrypt_block == oracle D, all round keys, all blocks"
 verif_harness! {
     name: kuz_compact_both_dec_rk_ref,
     bytes: 160 + 16,
@@ -242,7 +242,7 @@ verif_harness! {
     stubs: [(crate::compact_soft::backends::lsx, stub_lsx), (crate::compact_soft::backends::lsx_inv, stub_lsx_inv)],
     prop: |inp| { k::w_dec_rk(inp, Route::Ref, true, false) }
 }
-//@ harness name=kuz_compact_both_dec_rk_valclone prop=C12,C20 tier=quick bits=1408 stub=1 est=200 desc="W: Kuznyechik::from(enc).clone(): decrypt_block == oracle D, all round keys, all blocks"
+//@ harness name=kuz_compact_both_dec_rk_valclone prop=C12,C20 tier=thorough bits=1408 stub=1 est=200 desc="W: Kuznyechik::from(enc).clone(): decrypt_block == oracle D, all round keys, all blocks"
 verif_harness! {
     name: kuz_compact_both_dec_rk_valclone,
     bytes: 160 + 16,
@@ -250,7 +250,7 @@ verif_harness! {
     stubs: [(crate::compact_soft::backends::lsx, stub_lsx), (crate::compact_soft::backends::lsx_inv, stub_lsx_inv)],
     prop: |inp| { k::w_dec_rk(inp, Route::ValClone, true, false) }
 }
-//@ harness name=kuz_compact_both_dec_rk_refclone prop=C12,C20 tier=quick bits=1408 stub=1 est=200 desc="W: Kuznyechik::from(&enc).clone(): decrypt_block == oracle D, all round keys, all blocks"
+//@ harness name=kuz_compact_both_dec_rk_refclone prop=C12,C20 tier=thorough bits=1408 stub=1 est=200 desc="W: Kuznyechik::from(&enc).clone(): decrypt_block == oracle D, all round keys, all blocks"
 verif_harness! {
     name: kuz_compact_both_dec_rk_refclone,
     bytes: 160 + 16,
@@ -258,7 +258,7 @@ verif_harness! {
     stubs: [(crate::compact_soft::backends::lsx, stub_lsx), (crate::compact_soft::backends::lsx_inv, stub_lsx_inv)],
     prop: |inp| { k::w_dec_rk(inp, Route::RefClone, true, false) }
 }
-//@ harness name=kuz_compact_dec_key prop=C07,C03,C12,C20 tier=quick bits=384 stub=1 est=300 desc="W: KuznyechikDec::new(key).decrypt_block(b) == oracle D(key schedule(key), b), all keys, all blocks"
+//@ harness name=kuz_compact_dec_key prop=C07,C03,C12,C20 tier=thorough bits=384 stub=1 est=300 mem=30 cap=3600 desc="W: KuznyechikDec::new(key).decrypt_block(b) == oracle D(key schedule(key), b), all keys, all blocks"
 verif_harness! {
     name: kuz_compact_dec_key,
     bytes: 48,
@@ -266,7 +266,7 @@ verif_harness! {
     stubs: [(crate::compact_soft::backends::lsx, stub_lsx), (crate::compact_soft::backends::lsx_inv, stub_lsx_inv)],
     prop: |inp| { k::w_dec_key(inp, 0, false) }
 }
-//@ harness name=kuz_compact_dec_key_both prop=C07,C03,C12,C20 tier=quick bits=384 stub=1 est=300 desc="W: Kuznyechik::new(key).decrypt_block(b) == oracle D(key schedule(key), b), all keys, all blocks"
+//@ harness name=kuz_compact_dec_key_both prop=C07,C03,C12,C20 tier=thorough bits=384 stub=1 est=300 mem=30 cap=3600 desc="W: Kuznyechik::new(key).decrypt_block(b) == oracle D(key schedule(key), b), all keys, all blocks"
 verif_harness! {
     name: kuz_compact_dec_key_both,
     bytes: 48,
@@ -277,7 +277,7 @@ verif_harness! {
 
 // ---------------------------------------------------------------------------------------------------------- round trips
 
-//@ harness name=kuz_compact_rt_enc_dec prop=C01,C20 tier=quick bits=1408 stub=1 est=200 desc="W: KuznyechikEnc encrypts, KuznyechikDec::from(&enc) decrypts: result == b, arbitrary round keys, all blocks (S, L uninterpreted inverse pairs)"
+//@ harness name=kuz_compact_rt_enc_dec prop=C01,C20 tier=thorough bits=1408 stub=1 est=200 desc="W: KuznyechikEnc encrypts, KuznyechikDec::from(&enc) decrypts: result == b, arbitrary round keys, all blocks (S, L uninterpreted inverse pairs)"
 verif_harness! {
     name: kuz_compact_rt_enc_dec,
     bytes: 160 + 16,
@@ -285,7 +285,7 @@ verif_harness! {
     stubs: [(crate::compact_soft::backends::lsx, stub_lsx), (crate::compact_soft::backends::lsx_inv, stub_lsx_inv)],
     prop: |inp| { k::w_roundtrip_rk(inp, 0, false) }
 }
-//@ harness name=kuz_compact_rt_ed prop=C01,C20 tier=quick bits=1408 stub=1 est=200 desc="W: Kuznyechik::from(&enc): dec(enc(b)) == b, arbitrary round keys, all blocks"
+//@ harness name=kuz_compact_rt_ed prop=C01,C20 tier=thorough bits=1408 stub=1 est=200 desc="W: Kuznyechik::from(&enc): dec(enc(b)) == b, arbitrary round keys, all blocks"
 verif_harness! {
     name: kuz_compact_rt_ed,
     bytes: 160 + 16,
@@ -293,7 +293,7 @@ verif_harness! {
     stubs: [(crate::compact_soft::backends::lsx, stub_lsx), (crate::compact_soft::backends::lsx_inv, stub_lsx_inv)],
     prop: |inp| { k::w_roundtrip_rk(inp, 1, false) }
 }
-//@ harness name=kuz_compact_rt_de prop=C01,C20 tier=quick bits=1408 stub=1 est=200 desc="W: Kuznyechik::from(&enc): enc(dec(b)) == b, arbitrary round keys, all blocks"
+//@ harness name=kuz_compact_rt_de prop=C01,C20 tier=thorough bits=1408 stub=1 est=200 desc="W: Kuznyechik::from(&enc): enc(dec(b)) == b, arbitrary round keys, all blocks"
 verif_harness! {
     name: kuz_compact_rt_de,
     bytes: 160 + 16,
